@@ -61,3 +61,33 @@ Proof.
   - destruct (srunning s); intros H; inversion H; lia.
   - destruct (negb _); [intros H; inversion H; lia|]. destruct (_ =? _)%N; intros H; inversion H; simpl; lia.
 Qed.
+
+(* ---- the finder's wait for GetSyncAncestorRsp (finder.go: getAncestor) ---- *)
+(** The wait has one deadline fixed when the request is sent.  Events while waiting: [Some dt] =
+    an answer that is ignored (ancestor below the lowest anchor) arriving [dt] after the previous
+    event; [None] = nothing arrives any more.  [wait_time rearm timeout evs] = how long the finder
+    waits before it reports ErrorGetSyncAncestorTimeout; [rearm] = the timer is re-created after
+    every ignored answer (time.After inside the loop). *)
+Fixpoint wait_time (rearm : bool) (left : N) (timeout : N) (evs : list N) : N :=
+  match evs with
+  | [] => left
+  | dt :: r => if (left <=? dt)%N then left                      (* the deadline comes first *)
+               else (dt + wait_time rearm (if rearm then timeout else left - dt) timeout r)%N
+  end.
+
+Theorem ancestor_wait_bounded : forall evs timeout left, (left <= timeout)%N ->
+  (wait_time false left timeout evs <= timeout)%N.
+Proof.
+  induction evs as [|dt r IH]; intros timeout left H; simpl; [lia|].
+  destruct (N.leb_spec left dt); [lia|].
+  assert (Q : (wait_time false (left - dt) timeout r <= left - dt)%N).
+  { clear IH. generalize (left - dt)%N. induction r as [|d r IHr]; intros l; simpl; [lia|].
+    destruct (N.leb_spec l d); [lia|]. specialize (IHr (l - d)%N). lia. }
+  lia.
+Qed.
+
+(** Re-arming the timer after every ignored answer: answers every third of the timeout keep the
+    finder waiting as long as they keep coming (the seeded C17-r6 change). *)
+Theorem ancestor_wait_rearmed_refuted :
+  wait_time true 300 300 [100; 100; 100; 100; 100; 100; 100; 100; 100; 100]%N = 1300%N.
+Proof. reflexivity. Qed.
